@@ -1,5 +1,6 @@
 use super::Walrus;
 use super::writer::Writer;
+use crate::wal::config::PREFIX_META_SIZE;
 
 impl Walrus {
     pub fn append_for_topic(&self, col_name: &str, raw_bytes: &[u8]) -> std::io::Result<()> {
@@ -7,7 +8,8 @@ impl Walrus {
         crate::wal::verif::api("append", col_name, 1);
         self.mark_topic_dirty(col_name);
         Writer::precheck(col_name, &[raw_bytes])?;
-        let writer = self.get_or_create_writer(col_name)?;
+        let first_need = (PREFIX_META_SIZE as u64) + (raw_bytes.len() as u64);
+        let writer = self.get_or_create_writer(col_name, first_need)?;
         writer.write(raw_bytes)?;
         self.increment_topic_entry_count(col_name, 1);
         Ok(())
@@ -21,7 +23,8 @@ impl Walrus {
         if batch.is_empty() {
             return Ok(());
         }
-        let writer = self.get_or_create_writer(col_name)?;
+        let first_need = (PREFIX_META_SIZE as u64) + (batch[0].len() as u64);
+        let writer = self.get_or_create_writer(col_name, first_need)?;
         writer.batch_write(batch)?;
         self.increment_topic_entry_count(col_name, batch.len() as u64);
         Ok(())
